@@ -194,6 +194,15 @@ def run(tier, seed):
     if r.violated_name() != "HistoryFree":
         raise core.Machinery(f"negative control failed: an accessor that freezes its first view must violate HistoryFree\n{r.tail(20)}")
     rep.add_mc("MCAccessorSession memo (negative control: HistoryFree violated as expected)", r)
+    # unbounded sessions: HistoryFree /\ ArgWins /\ NoSpuriousError is an inductive invariant (Apalache, symbolic)
+    ok0, tail0, w0 = core.apalache("AccessorSession", "IndInv", length=0, extra=["--cinit=ConstInit"])
+    ok1, tail1, w1 = core.apalache("AccessorSession", "IndInv", length=1, extra=["--cinit=ConstInit", "--init=IndInit"])
+    okm, tailm, wm = core.apalache("AccessorSession", "IndInv", length=1, extra=["--cinit=ConstInitMemo", "--init=IndInit"])
+    if not (ok0 and ok1):
+        raise core.Machinery(f"Apalache did not establish the inductive invariant of AccessorSession:\n{tail0}\n{tail1}")
+    if okm or "Checker has found an error" not in tailm:
+        raise core.Machinery(f"negative control failed: the memo variant must break the inductive step\n{tailm}")
+    rep.runs.append({"run": "Apalache AccessorSession: Init => IndInv; IndInv /\\ Next => IndInv' (sessions of any length); memo variant refuted", "wall_s": round(w0 + w1 + wm, 1)})
     cases = [execute(c) for c in gen_cases(tier, seed)]
     verdicts, st = core.validate_batch(MODULE, cases, per_jvm=2000, timeout=900)
     rep.add_stats("TraceAccessorSession", st, len(cases))
